@@ -49,6 +49,8 @@ class Module:
             from .normalize import split_tuple_assignments, fold_constant_conditions
             self.norm_counts['folded'] = fold_constant_conditions(self.tree)
             self.norm_counts['tuple_split'] = split_tuple_assignments(self.tree)
+            if self.inlined:
+                self.norm_counts['coalesced'] = inline.coalesce_inlined_results(self.tree)
             self.renamed = alpha.apply(self.tree, relpath)
             from . import propagate
             self.propagated = propagate.apply(self.tree, relpath, loader)
